@@ -391,6 +391,8 @@ func (fr *frame) visitInstr(instr ssa.Instruction) continuation {
 		x := fr.get(instr.X)
 		idx := fr.get(instr.Index)
 		switch x := x.(type) {
+		case *absBytes:
+			abandon("cell access into an abstract buffer")
 		case []value:
 			k := fr.checkIndex(idx, instr.Index.Type(), len(x))
 			fr.env[instr] = &x[k]
